@@ -21,13 +21,19 @@ vars == <<l, seg, cf, trust, mark, S, removed, viol, nviol, nchk, pareto, vacEq>
 Ev == Rec[l]
 NoMark == [k |-> "", n |-> 0]
 
+(* violation collection: at most 40 entries per (clause, site, cond) signature are kept in viol.list, so a
+   frequent (known) signature can never crowd out a different one; viol.bad lists every rejected line *)
 Note(clause, site, cond) ==
   /\ nviol' = nviol + 1
-  /\ viol' = IF Len(viol) < 100 THEN Append(viol, [line |-> l, clause |-> clause, site |-> site, cond |-> cond]) ELSE viol
+  /\ viol' = [list |-> IF Cardinality({i \in 1..Len(viol.list) : viol.list[i].clause = clause /\ viol.list[i].site = site
+                                                                   /\ viol.list[i].cond = cond}) < 40
+                       THEN Append(viol.list, [line |-> l, clause |-> clause, site |-> site, cond |-> cond])
+                       ELSE viol.list,
+              bad |-> IF Len(viol.bad) < 50000 THEN Append(viol.bad, l) ELSE viol.bad]
 Quiet == UNCHANGED <<viol, nviol>>
 
 Init == /\ l = 1 /\ seg = [kind |-> "none"] /\ cf = <<>> /\ trust = <<>> /\ mark = <<>>
-        /\ S = {} /\ removed = {} /\ viol = <<>> /\ nviol = 0 /\ nchk = 0 /\ pareto = 0 /\ vacEq = 0
+        /\ S = {} /\ removed = {} /\ viol = [list |-> <<>>, bad |-> <<>>] /\ nviol = 0 /\ nchk = 0 /\ pareto = 0 /\ vacEq = 0
 
 Reset == /\ Ev.ev = "Reset" /\ seg' = Ev
          /\ IF Ev.kind = "evict"
@@ -142,6 +148,6 @@ Next == /\ l <= N /\ l' = l + 1
 Spec == Init /\ [][Next]_vars
 
 Report == (l = N + 1) =>
-  JsonSerialize(IOEnv.OUT, [consumed |-> l - 1, total |-> N, nviol |-> nviol, checked |-> nchk, viol |-> viol,
+  JsonSerialize(IOEnv.OUT, [consumed |-> l - 1, total |-> N, nviol |-> nviol, checked |-> nchk, viol |-> viol.list, badlines |-> viol.bad,
                             pareto |-> pareto])
 =============================================================================
